@@ -338,6 +338,10 @@ fn equivalence(h: &H, idx: u64, rng: &mut Rng) {
     h.guard(idx, &desc, || {
         let mut ctx = Minimal::new();
         for (k, v) in &resources {
+            // (now and then registered twice: the body in force is the one registered last)
+            if hash_str(k) % 5 == idx % 5 {
+                ctx.register_resource(k, "noop | addone | addone");
+            }
             ctx.register_resource(k, v);
         }
         let expanded = expand(&call, &macros, &BTreeMap::new(), 0);
